@@ -34,16 +34,16 @@ type monPlan struct {
 type c01Case struct {
 	Model interface{} `json:"model"`
 	// transactions committed inside monitor windows, in order of use
-	WindowTxns []TxnJ `json:"window_txns,omitempty"`
-	Txns  []TxnJ      `json:"txns"`
-	Who   []int       `json:"who"` // -1 = writer, i = monitoring client i
-	Mons  []monPlan   `json:"monitors"`
+	WindowTxns []TxnJ    `json:"window_txns,omitempty"`
+	Txns       []TxnJ    `json:"txns"`
+	Who        []int     `json:"who"` // -1 = writer, i = monitoring client i
+	Mons       []monPlan `json:"monitors"`
 }
 
 type monClient struct {
 	c     client.Client
 	db    *DB
-	cols  map[string][]string // union of what its monitors cover
+	cols  map[string][]string      // union of what its monitors cover
 	trace []map[string]interface{} // the client's actions, for the protocol model (Model/Client.lean)
 }
 
